@@ -776,6 +776,13 @@ pub fn worker(prop: &str, shard: usize, nshards: usize, seed: u64, tier: &str, o
                         let case = || json!({"kind":"pos","family":name,"index":i.to_string(),"load_fen":f6});
                         let origin = Origin { case: &case, route: "enum", src: ((fi as u64 + 1) << 40) | i };
                         walk.check_position(&mut g, &p, &origin);
+                        if fam == gen::Family::Intruder {
+                            // one ply deeper: what the other side may do after every reply
+                            // (castling with a rook that has just been taken, rights that a
+                            // king move on the far rank must not touch)
+                            let mut path = vec![];
+                            tree_walk(&mut walk, &mut g, &p, 1, &f6, &mut path, (150u64 << 40) | i);
+                        }
                     }
                     Err(e) => {
                         if walk.report == "C01" || walk.report == "C11" {
